@@ -3,7 +3,8 @@ C05 — isotopomer expansion preserves base structure, totals and dynamics.
 All theorems are about the executable model `MxlVerif/Model/C05.lean` (the same `def`s the
 driver runs).  Only property theorems and non-vacuity examples live here.
 -/
-import MxlVerif.Lemmas.C05
+import MxlVerif.Lemmas.C05Keys
+import MxlVerif.Generated.C05Facts
 namespace Mxl.C05
 
 /-- exactly one isotopomer reaction per labelling pattern of the substrates: `2 ^ Σ labels`
@@ -198,29 +199,31 @@ theorem C05_totals_preserved (lv : List (Name × Nat)) (initLabels : List (Name 
     intro idx hidx
     simp [initSuffix, List.getElem?_map, List.getElem?_range hidx]
 
-/-- **collapse** (under `DistinctOccurrences`): for a mass-action reaction, the rates of its
-    isotopomer reactions sum to the base rate evaluated at the isotopomer totals, at every state -/
-theorem C05_collapse_partial {lv : List (Name × Nat)} {r : BRxn} {lm : List Nat} {rs : List LRxn}
+/-- **collapse**: for a mass-action reaction (one factor per substrate occurrence of every labelled
+    compound — a compound may take part more than once, 2 A → B with rate k·A·A), the rates of its
+    isotopomer reactions sum to the base rate evaluated at the isotopomer totals, at every state.
+    (Unconditional after repo commit "fix: isotopomer reactions of a compound that takes part more
+    than once ..."; before it the statement needed `DistinctOccurrences`, finding F-C05-1.) -/
+theorem C05_collapse {lv : List (Name × Nat)} {r : BRxn} {lm : List Nat} {rs : List LRxn}
     (hok : isotopomerReactions lv r lm = .ok rs)
-    (hm : MassAction lv r) (hd : DistinctOccurrences lv r) (σ : LName → Rat) :
+    (hm : MassAction lv r) (σ : LName → Rat) :
     (rs.map (·.rate σ)).sum = r.rate (totalsEnv lv σ) :=
-  collapse_core hok hd hm σ
+  collapse_full hok hm σ
 
-/-- hence (same hypotheses, map covering the product atoms) the summed derivative contribution
-    to the isotopomers of any compound `x` is the base contribution at the totals -/
-theorem C05_dynamics_partial {lv : List (Name × Nat)} {r : BRxn} {lm : List Nat} {rs : List LRxn}
+/-- hence (map covering the product atoms) the summed derivative contribution to the isotopomers of
+    any compound `x` is the base contribution at the totals -/
+theorem C05_dynamics {lv : List (Name × Nat)} {r : BRxn} {lm : List Nat} {rs : List LRxn}
     (hok : isotopomerReactions lv r lm = .ok rs) (hwf : nProd lv r ≤ lm.length)
-    (hm : MassAction lv r) (hd : DistinctOccurrences lv r) (σ : LName → Rat) (x : Name) :
+    (hm : MassAction lv r) (σ : LName → Rat) (x : Name) :
     ((binaryLabels x (labelsOf lv x)).map (rhsOf rs σ)).sum
       = (netStoich r.stoich x : Rat) * r.rate (totalsEnv lv σ) :=
-  dynamics_core hok hwf hm hd σ x
+  dynamics_full hok hwf hm σ x
 
-/-- **whole model** (every mapped reaction mass action with distinct labelled occurrences and a map
-    covering the product atoms; unmapped reactions do not touch labelled compounds; the
-    environment reads `X__total` as the sum of the isotopomers of `X`): for every compound the
-    derivatives of its isotopomers in the model `build_model` returns add up to the base model's
-    derivative evaluated at the totals -/
-theorem C05_model_dynamics_partial {b : Base} {lv : List (Name × Nat)}
+/-- **whole model** (every mapped reaction mass action with a map covering the product atoms;
+    unmapped reactions do not touch labelled compounds; the environment reads `X__total` as the sum
+    of the isotopomers of `X`): for every compound the derivatives of its isotopomers in the model
+    `build_model` returns add up to the base model's derivative evaluated at the totals -/
+theorem C05_model_dynamics {b : Base} {lv : List (Name × Nat)}
     {maps : List (Name × List Nat)} {il : List (Name × List Nat)} {m : LModel}
     (hb : buildModel b lv maps il = .ok m) (hr : ∀ r ∈ b.rxns, RxnOk lv maps r) (σ : LName → Rat)
     (hσ : ∀ k n, lv.lookup k = some n → σ (plain (k ++ "__total")) = totalOf σ k n) (x : Name) :
@@ -243,18 +246,30 @@ theorem C05_env_totals (m : LModel) (st : List (LName × Rat)) (k : Name) (n : N
     m.env st (plain (k ++ "__total")) = totalOf (m.env st) k n :=
   env_totals m st k n hst hnot hp ht
 
-/-- the full statement (without `DistinctOccurrences`) is false of the code as it stands
-    (finding F-C05-1): 2 A → B with rate `k·A·A`, A carrying one label; at A⁰ = 1, A¹ = 3, k = 1
-    the four isotopomer rates sum to 20, the base rate at the total 4 is 16 -/
-theorem C05_collapse_fails_homodimer :
+/-- the rate arguments of a reaction in which a compound takes part twice: 2 A → B with rate
+    `k·A·A`, pattern `[a₁, a₂]` — the first mention of A reads the first occurrence's isotopomer,
+    the second mention the second's (the former finding F-C05-1: both read the last one) -/
+example :
+    ∃ rs, isotopomerReactions [("A", 1), ("B", 2)]
+        { name := "v", fn := listProd, args := ["k", "A", "A"], stoich := [("A", -2), ("B", 1)] }
+        [0, 1] = .ok rs ∧
+      rs.map (·.args)
+        = [[plain "k", ⟨"A", some [false]⟩, ⟨"A", some [false]⟩],
+           [plain "k", ⟨"A", some [false]⟩, ⟨"A", some [true]⟩],
+           [plain "k", ⟨"A", some [true]⟩, ⟨"A", some [false]⟩],
+           [plain "k", ⟨"A", some [true]⟩, ⟨"A", some [true]⟩]] := ⟨_, rfl, by decide +kernel⟩
+
+/-- non-vacuity of `MassAction` with a repeated labelled compound, and the collapse on the former
+    witness of F-C05-1 (A⁰ = 1, A¹ = 3, k = 1): the four isotopomer rates sum to 16 = 1·4·4 -/
+example :
     ∃ (lv : List (Name × Nat)) (r : BRxn) (lm : List Nat) (rs : List LRxn) (σ : LName → Rat),
-      isotopomerReactions lv r lm = .ok rs ∧ MassAction lv r ∧
-      (rs.map (·.rate σ)).sum ≠ r.rate (totalsEnv lv σ) := by
+      isotopomerReactions lv r lm = .ok rs ∧ MassAction lv r ∧ ¬ DistinctOccurrences lv r ∧
+      (rs.map (·.rate σ)).sum = 16 ∧ r.rate (totalsEnv lv σ) = 16 := by
   refine ⟨[("A", 1), ("B", 2)],
     { name := "v", fn := listProd, args := ["k", "A", "A"], stoich := [("A", -2), ("B", 1)] },
     [0, 1], _,
     (fun n => if n = ⟨"A", some [false]⟩ then 1 else if n = ⟨"A", some [true]⟩ then 3
-      else if n = plain "k" then 1 else 0), rfl, ⟨fun _ => rfl, ?_⟩, ?_⟩
+      else if n = plain "k" then 1 else 0), rfl, ⟨fun _ => rfl, ?_⟩, by decide, ?_, ?_⟩
   · intro a ha
     by_cases e : a = "A"
     · subst e; decide
@@ -265,10 +280,85 @@ theorem C05_collapse_fails_homodimer :
         have e3 : (a == "B") = false := by simpa using e2
         simp [labelsOf, List.lookup, e1, e3] at ha
   · decide +kernel
+  · decide +kernel
 
-/-- non-vacuity of the hypotheses: A + B → C, `k·A·B`, all labelled, satisfies them -/
-example : DistinctOccurrences [("A", 1), ("B", 1), ("C", 2)]
-    { name := "v", fn := listProd, args := ["k", "A", "B"], stoich := [("A", -1), ("B", -1), ("C", 1)] } := by
-  decide
+/-- the isotopomers the public query `get_isotopomers` hands out are exactly the names the totals
+    `X__total` of the built model sum over -/
+theorem C05_query_isotopomers_are_totals {b : Base} {lv : List (Name × Nat)}
+    {maps : List (Name × List Nat)} {il : List (Name × List Nat)} {m : LModel}
+    (hb : buildModel b lv maps il = .ok m) :
+    m.totals = (getIsotopomers lv).map fun kv => (plain (kv.1 ++ "__total"), kv.2) := by
+  unfold buildModel at hb
+  cases hg : b.rxns.mapM (buildRxn lv maps) with
+  | error e => rw [hg] at hb; simp [bind, Except.bind] at hb
+  | ok groups =>
+    rw [hg] at hb
+    simp only [bind, Except.bind, pure, Except.pure, Except.ok.injEq] at hb
+    subst hb
+    simp [getIsotopomers, List.map_map, Function.comp_def]
+
+/-- `get_isotopomers_of_at_position`: unknown compound → `KeyError`; a position beyond the compound's
+    label positions → `IndexError`; otherwise exactly the isotopomers labelled at every requested
+    position (none for a compound without positions), in isotopomer order -/
+theorem C05_query_at_position (lv : List (Name × Nat)) (x : Name) (ps : List Nat) :
+    (lv.lookup x = none → isotopomersAtPosition lv x ps = .error (.keyError x)) ∧
+    (∀ n, lv.lookup x = some n →
+      ((∃ p ∈ ps, n ≤ p) → isotopomersAtPosition lv x ps = .error .indexError) ∧
+      ((∀ p ∈ ps, p < n) → ∃ l, isotopomersAtPosition lv x ps = .ok l ∧
+        l.Sublist (binaryLabels x n) ∧
+        ∀ m, m ∈ l ↔ ∃ u, n > 0 ∧ u.length = n ∧ m = ⟨x, some u⟩ ∧ ∀ p ∈ ps, u[p]? = some true)) := by
+  refine ⟨?_, ?_⟩
+  · intro h
+    simp [isotopomersAtPosition, labelCount, h, bind, Except.bind]
+  · intro n h
+    refine ⟨?_, ?_⟩
+    · rintro ⟨p, hp, hle⟩
+      have : (ps.any fun p => decide (n ≤ p)) = true := List.any_eq_true.mpr ⟨p, hp, by simpa using hle⟩
+      simp [isotopomersAtPosition, labelCount, h, bind, Except.bind, this]
+    · intro hall
+      have hany : (ps.any fun p => decide (n ≤ p)) = false := by
+        rw [List.any_eq_false]
+        intro p hp; have := hall p hp; simp; omega
+      by_cases hn : n = 0
+      · subst hn
+        have hps : ps = [] := by
+          cases ps with
+          | nil => rfl
+          | cons p ps => exact absurd (hall p List.mem_cons_self) (by omega)
+        subst hps
+        refine ⟨[], by simp [isotopomersAtPosition, labelCount, h, bind, Except.bind, pure, Except.pure],
+          List.nil_sublist _, ?_⟩
+        intro m; simp
+      · have hpos : n > 0 := Nat.pos_of_ne_zero hn
+        refine ⟨((patterns n).filter fun u => ps.all fun p => u.getD p false).map fun u => ⟨x, some u⟩,
+          by simp only [isotopomersAtPosition, labelCount, h, bind, Except.bind, hany, hn,
+            Bool.false_eq_true, if_false, pure, Except.pure], ?_, ?_⟩
+        · simp only [binaryLabels, hpos, if_true]
+          exact List.Sublist.map _ List.filter_sublist
+        · intro m
+          simp only [List.mem_map, List.mem_filter, List.all_eq_true, mem_patterns]
+          constructor
+          · rintro ⟨u, ⟨hu, hb⟩, rfl⟩
+            refine ⟨u, hpos, hu, rfl, ?_⟩
+            intro p hp
+            have hlt : p < u.length := by rw [hu]; exact hall p hp
+            have := hb p hp
+            simp only [List.getD_eq_getElem?_getD, List.getElem?_eq_getElem hlt, Option.getD_some] at this
+            rw [List.getElem?_eq_getElem hlt, this]
+          · rintro ⟨u, _, hu, rfl, hb⟩
+            refine ⟨u, ⟨hu, ?_⟩, rfl⟩
+            intro p hp
+            simp [List.getD_eq_getElem?_getD, hb p hp]
+
+/-- the facts regenerated from the current `label_map.py` by `translate/c05.py` are the ones the
+    model is written for: every mirrored function has its modelled statement shape (no decorator,
+    no further dataclass field); names are `base ++ "__" ++ bits`; `it.product` enumerates '0'
+    before '1' (`patterns`: `false` before `true`); positions beyond the substrates get '1'
+    (`externalLabels`: `true`); requested initial positions are '1'; totals are `X__total`; rate
+    arguments are replaced per occurrence (`replaceArgs`) -/
+theorem C05_source_facts :
+    Gen.shapeOk = true ∧ Gen.sep = "__" ∧ Gen.alphabet = ['0', '1'] ∧ Gen.extChar = '1' ∧
+    Gen.oneChar = '1' ∧ Gen.zeroChar = '0' ∧ Gen.totalSuffix = "__total" ∧
+    Gen.positionalArgs = true := by decide
 
 end Mxl.C05
